@@ -221,25 +221,46 @@ inductive Outcome where
   | pinauth (r : PinResult)
   deriving Repr, DecidableEq
 
-/-- `DebuggedApplication.__call__` followed by the handler it selects -/
+def Secret.isRight : Secret → Bool
+  | .right => true
+  | _ => false
+
+def Trust.isYes : Trust → Bool
+  | .yes => true
+  | _ => false
+
+def Cmd.isSome : Cmd → Bool
+  | .none => false
+  | _ => true
+
+/-- every handler starts with `if not self.check_host_trust(...): return SecurityError()` -/
+def hostGate (r : Req) (failed : UInt8) (k : Outcome × UInt8) : Outcome × UInt8 :=
+  match r.hostTrusted with
+  | false => (.securityError, failed)
+  | true => k
+
+/-- `DebuggedApplication.__call__` followed by the handler it selects (the `if/elif` chain of the
+code, written with pattern matching) -/
 def dispatch (cfg : Config) (failed : UInt8) (r : Req) : Outcome × UInt8 :=
-  if r.debugger then
-    if r.cmd == .resource && r.hasArg then (.resource, failed)
-    else if r.cmd == .pinauth && r.secret == .right then
-      if !r.hostTrusted then (.securityError, failed)
-      else
-        let (res, f') := pinAuth failed (checkPinTrust cfg.pinOn r.cookie) r.pinRight
-        (.pinauth res, f')
-    else if r.cmd == .printpin && r.secret == .right then
-      if !r.hostTrusted then (.securityError, failed)
-      else (.printpin (cfg.pinLogging && cfg.pinOn), failed)
-    else if cfg.evalex && r.cmd != .none && r.frameKnown && r.secret == .right
-        && checkPinTrust cfg.pinOn r.cookie == .yes then
-      if !r.hostTrusted then (.securityError, failed) else (.evalRan, failed)
-    else (.app, failed)
-  else if cfg.evalex && cfg.consoleOn && r.atConsole then
-    if !r.hostTrusted then (.securityError, failed) else (.console, failed)
-  else (.app, failed)
+  match r.debugger with
+  | true =>
+    match r.cmd, r.hasArg, r.secret.isRight with
+    | .resource, true, _ => (.resource, failed)                       -- get_resource: no gate
+    | .pinauth, _, true =>                                            -- pin_auth
+      hostGate r failed
+        (let res := pinAuth failed (checkPinTrust cfg.pinOn r.cookie) r.pinRight
+         (.pinauth res.1, res.2))
+    | .printpin, _, true =>                                           -- log_pin_request
+      hostGate r failed (.printpin (cfg.pinLogging && cfg.pinOn), failed)
+    | cmd, _, sec =>
+      match cfg.evalex && cmd.isSome && r.frameKnown && sec
+          && (checkPinTrust cfg.pinOn r.cookie).isYes with
+      | true => hostGate r failed (.evalRan, failed)                  -- execute_command
+      | false => (.app, failed)
+  | false =>
+    match cfg.evalex && cfg.consoleOn && r.atConsole with
+    | true => hostGate r failed (.console, failed)                    -- display_console
+    | false => (.app, failed)
 
 /-! ### decoding the generated table (`Gen/Debugger.lean`) -/
 
